@@ -1,6 +1,7 @@
 package c16
 
 import (
+	"sync"
 	"bytes"
 	"context"
 	"database/sql/driver"
@@ -116,11 +117,40 @@ type sqlFeed struct {
 	last  string // last statement the service issued
 	lastQ string // last statement the replica issued
 	err   error  // last interpreter error
+	mu    sync.Mutex
+	// gate, when set, holds every statement of the service until `want` statements have arrived or the wait is
+	// over: concurrent requests are then all in flight at the database at the same moment
+	gate *gate
+}
+
+type gate struct {
+	mu      sync.Mutex
+	want    int
+	arrived int
+	open    chan struct{}
+}
+
+func (g *gate) arrive() {
+	g.mu.Lock()
+	g.arrived++
+	if g.arrived == g.want {
+		close(g.open)
+	}
+	g.mu.Unlock()
+	select {
+	case <-g.open:
+	case <-time.After(300 * time.Millisecond):
+	}
 }
 
 func newSQLFeed(name string) *sqlFeed {
 	f := &sqlFeed{}
 	f.sess = sqldrv.NewSession(name, func(ctx context.Context, q string) (*sqldrv.Rows, error) {
+		if g := f.gate; g != nil {
+			g.arrive()
+		}
+		f.mu.Lock()
+		defer f.mu.Unlock()
 		f.last = q
 		tree, fns, err := f.exec(q)
 		if err != nil {
@@ -267,6 +297,34 @@ func (f *sqlFeed) service(w window) (*prof.FlameGraph, error) {
 		return nil, errors.New("no flame graph in the response")
 	}
 	return res.Flamegraph, nil
+}
+
+// serviceConcurrently sends one request per window at the same time (as the panels of one dashboard do); the
+// statements are held at the database until all of them have arrived.
+func (f *sqlFeed) serviceConcurrently(ws []window) ([]*prof.FlameGraph, []error) {
+	f.err = nil
+	f.gate = &gate{want: len(ws), open: make(chan struct{})}
+	defer func() { f.gate = nil }()
+	out := make([]*prof.FlameGraph, len(ws))
+	errs := make([]error, len(ws))
+	var wg sync.WaitGroup
+	for i := range ws {
+		wg.Add(1)
+		go func(i int) {
+			defer wg.Done()
+			res, err := f.svc.MergeStackTraces(context.Background(), ws[i].selector, ws[i].typeID, ws[i].from, ws[i].to)
+			switch {
+			case err != nil:
+				errs[i] = err
+			case res == nil || res.Flamegraph == nil:
+				errs[i] = errors.New("no flame graph in the response")
+			default:
+				out[i] = res.Flamegraph
+			}
+		}(i)
+	}
+	wg.Wait()
+	return out, errs
 }
 
 func levelsOf(ls []*prof.Level) [][]int64 {
